@@ -207,6 +207,16 @@ def impl(line):
         return ' '.join(rat(v) for v in dec(untok(a[1])))
     if op == 'enc':
         return tok(enc(Coordinate(_fl(a[2]), _fl(a[3])), int(a[1])))
+    if op == 'enczm':
+        # the coordinate carries Z and/or M (`-` = absent, 0 is a value): through the codec and through the hasher
+        zm = {k: _fl(v) for k, v in (('z', a[4]), ('m', a[5])) if v != '-'}
+        c = Coordinate(_fl(a[2]), _fl(a[3]), **zm)
+        h = enc(c, int(a[1]))
+        via_point = G.NiemeyerHasher(int(a[1]), b).hash_shape(GeoPoint(c))
+        via_list = G.NiemeyerHasher(int(a[1]), b).hash_coordinates([c])
+        if via_point != {h} or via_list != {h: 1}:
+            return f'hasher-differs {tok(h)} {sorted(map(tok, via_point))} {sorted((tok(k), v) for k, v in via_list.items())}'
+        return tok(h)
     if op == 'encp':
         hasher, pt = G.NiemeyerHasher(int(a[1]), b), GeoPoint(Coordinate(_fl(a[2]), _fl(a[3])))
         r = twice(hasher.hash_shape, pt, salt=line)
@@ -317,7 +327,7 @@ def _spec(line):
             if not (0 < i < 2 ** nlon - 1 and -90 <= y0 - hgt and y1 + hgt <= 90 and h):
                 return None
             return ' '.join(tok(hash_of_cell(b, len(h), i + dx, j + dy)) for dx, dy in OFFSETS)
-    if op in ('enc', 'encp'):
+    if op in ('enc', 'encp', 'enczm'):          # (Z and M do not enter the geohash)
         st = _stored(F(a[2]), F(a[3]))
         if st is None:
             return None
@@ -449,6 +459,11 @@ def corrupt(rng, b, h):
 
 def check(run):
     run.prove(MODULE, THEOREMS)
+    run.source_tie(['SrcGeohash'], 'GeoVerif.Props.C11Src', ['GV.C11Src.' + t for t in (
+        'decInner_generic', 'decOuter_generic', 'decodeCfg_generic', 'decodeNiemeyer_eq', 'encLoop_generic', 'encodeCfg_generic',
+        'coordToNiemeyer_eq', 'subhashes_eq', 'niemeyerToGeobox_eq', 'getSurrounding_eq', 'loops_eq_of_wf', 'bases_eq',
+        'src_decode_encode_contains', 'src_encode_shape', 'src_encode_centre', 'src_decode_rejects', 'src_subhashes_tile',
+        'src_surrounding_adjacent')])
     rng = run.rng
     Coordinate, GeoBox, GeoPoint, GeoPolygon, G = _mods()
 
@@ -501,6 +516,26 @@ def check(run):
     run.run_cases('random-coordinates', lines, impl, spec, known_key=known_key,
                   tag=lambda ln, a: [f'coord:{classes[ln]}', f'{ln.split()[0]}:{"err" if a.startswith("ERR") else "ok"}'])
 
+    # ---- coordinates that carry Z and / or M (0.0 included): the geohash of their longitude / latitude ----------
+    n = run.scale(600, 12000)
+    lines = []
+    for _ in range(n):
+        b = rng.choice([16, 32, 64])
+        x, y, _cls = rand_coord(rng, b)
+        L = rng.randint(1, 12) if rng.random() < 0.95 else 0
+
+        def extra():
+            r = rng.random()
+            return '-' if r < 0.3 else '0' if r < 0.5 else rat(rng.choice([-0.0, 1.0, -12.5, 8848.0, 1e-3, 1.7e9, rng.uniform(-1e4, 1e4)]))
+        z, m = extra(), extra()
+        if z == m == '-':
+            z = '0'
+        lines.append(f'gh.enczm {b} {L} {rat(x)} {rat(y)} {z} {m}')
+    run.run_cases('enc-zm', lines, impl, spec, known_key=known_key,
+                  tag=lambda ln, a: [f'enczm:z{"-" if ln.split()[5] == "-" else "0" if F(ln.split()[5]) == 0 else "v"}'
+                                     f':m{"-" if ln.split()[6] == "-" else "0" if F(ln.split()[6]) == 0 else "v"}'
+                                     f':{"err" if a.startswith("ERR") else "ok"}'])
+
     # ---- random deep cells: decode / centre / children / boxes / neighbours at lengths 1..12 ---------
     n = run.scale(1500, 40000)
     lines = []
@@ -550,7 +585,7 @@ def check(run):
         rule='every cell of bases 16/32/64 to depth 3/2(3 thorough)/2 (decode, centre re-encode, box, neighbours, '
              'children + tiling, all corner/edge points re-encoded) — exhaustive; random coordinates (uniform, exactly '
              'on cell edges, one ulp off, range limits, wrapped) at lengths 0..12; random cells at lengths 1..12; '
-             'hash_coordinates groupings; corrupted hashes. A case is one protocol line; distinct by line.',
+             'coordinates carrying Z and/or M (absent / 0.0 / a value) through the codec and the hasher; hash_coordinates groupings; corrupted hashes. A case is one protocol line; distinct by line.',
         assumptions=['binary64 arithmetic of the bisection is exact (all end points are k*180/2^n, n <= 44: theorem '
                      'float_exact_bound); comparisons of floats are exact',
                      'Coordinate normalisation is modelled by GV.normalize (C08)',
